@@ -187,22 +187,43 @@ PATTERNS = [
     (re.compile(r'^@_ZNKSt8__detail20_Prime_rehash_policy14_M_need_rehashEmmm$'), x_need_rehash),
 ]
 
-# ---- minimal std::ostream / ostringstream content model: inserted text is collected per stream object so that
-# ostringstream::str() returns it (libcola compares CompoundConstraint::toString() against a literal).  Number
-# formatting is approximate ("%g"-like); formatted numbers are never the subject of a claim.
-def _buf(s, os_):
-    if not hasattr(s, 'osbuf') or s.osbuf_owner is not s.objs:
-        s.osbuf = {}; s.osbuf_owner = s.objs
-    return s.osbuf.setdefault((os_.obj, os_.off), [])
+# ---- std::ostringstream / std::stringstream content model.  The stringbuf inside the stream object keeps its text in its
+# _M_string member (a real std::string in the modelled SSO layout) with all put/get area pointers null, which is a valid
+# libstdc++ state: an inlined str() then returns a copy of _M_string, an out-of-line str() is modelled to do the same.
+# Text inserted into streams that are not known string streams (cout, cerr, ofstream) is dropped.  Number formatting is
+# approximate ("%g"); formatted numbers are never the subject of a claim.
+SB_STRING = 72          # offset of _M_string inside basic_stringbuf (vptr, 6 area pointers, locale, mode)
+def _streams(s):
+    if not hasattr(s, 'sstreams') or s.sstreams_owner is not s.objs:
+        s.sstreams = {}; s.sstreams_owner = s.objs
+    return s.sstreams
+
+def _init_sstream(s, this, os_off, sb_off):
+    from irsym import Ptr
+    for o in range(sb_off + 8, sb_off + 56, 8): s.store(Ptr(this.obj, this.off + o), P8, Ptr(0, 0))
+    st = Ptr(this.obj, this.off + sb_off + SB_STRING)
+    s.store(st, P8, Ptr(st.obj, st.off + 16)); s.store(Ptr(st.obj, st.off + 8), I64, 0); s.store(Ptr(st.obj, st.off + 16), I8, 0)
+    _streams(s)[(this.obj, this.off + os_off)] = st
+
+def x_oss_ctor(s, fr, ins, a): _init_sstream(s, a[0], 0, 8); return None
+def x_ss_ctor(s, fr, ins, a): _init_sstream(s, a[0], 16, 24); return None
+
+def _emit(s, os_, bs):
+    st = _streams(s).get((os_.obj, os_.off))
+    if st is None or not bs: return
+    from irsym import Ptr
+    p, n, cap, local = _flds(s, st)
+    p = _grow(s, st, n + len(bs))
+    _putbytes(s, Ptr(p.obj, p.off + n), bs); _setlen(s, st, p, n + len(bs))
 
 def x_os_cstr(s, fr, ins, a):
-    _buf(s, a[0]).extend(ord(c) for c in s.cstring(a[1])); return a[0]
+    _emit(s, a[0], [ord(c) & 0xff for c in s.cstring(a[1])]); return a[0]
 def x_os_insert(s, fr, ins, a):
     n = a[2]
-    if isinstance(n, int) and n < (1 << 20): _buf(s, a[0]).extend(_bytes(s, a[1], n))
+    if isinstance(n, int) and n < (1 << 20) and (a[0].obj, a[0].off) in _streams(s): _emit(s, a[0], _bytes(s, a[1], n))
     return a[0]
 def x_os_char(s, fr, ins, a):
-    c = a[1]; _buf(s, a[0]).append(c & 0xff if isinstance(c, int) else ord('?')); return a[0]
+    c = a[1]; _emit(s, a[0], [c & 0xff if isinstance(c, int) else ord('?')]); return a[0]
 def x_os_num(s, fr, ins, a):
     v = a[1]
     if isinstance(v, float): t = '%g' % v
@@ -212,11 +233,16 @@ def x_os_num(s, fr, ins, a):
         signed = nm.endswith(('Ei', 'El', 'Es', 'Ex')) or 'IlE' in nm or 'IxE' in nm
         t = str(v - (1 << bits) if signed and v >> (bits - 1) else v)
     else: t = '?'
-    _buf(s, a[0]).extend(ord(c) for c in t); return a[0]
+    _emit(s, a[0], [ord(c) for c in t]); return a[0]
 def x_oss_str(s, fr, ins, a):
     from irsym import Ptr
     out, this = a[0], a[1]
-    bs = list(_buf(s, this))
+    nm = ins.callee.v
+    os_off = 16 if 'basic_stringstream' in nm else 0
+    st = _streams(s).get((this.obj, this.off + os_off))
+    bs = []
+    if st is not None:
+        p, n, cap, local = _flds(s, st); bs = _bytes(s, p, n)
     n = len(bs)
     if n <= 15: p = Ptr(out.obj, out.off + 16)
     else:
@@ -225,16 +251,56 @@ def x_oss_str(s, fr, ins, a):
     s.store(out, P8, p); _putbytes(s, p, bs + [0]); s.store(Ptr(out.obj, out.off + 8), I64, n)
     return None
 def x_oss_dtor(s, fr, ins, a):
-    if hasattr(s, 'osbuf') and s.osbuf_owner is s.objs: s.osbuf.pop((a[0].obj, a[0].off), None)
+    this = a[0]; nm = ins.callee.v
+    os_off = 16 if 'basic_stringstream' in nm else 0
+    st = _streams(s).pop((this.obj, this.off + os_off), None)
+    if st is not None:
+        p, n, cap, local = _flds(s, st)
+        if p != local: s.free(p)
     return None
 
+SS = r'^@_ZNSt7__cxx11(19basic_ostringstream|18basic_stringstream)IcSt11char_traitsIcESaIcEE'
 PATTERNS += [
     (re.compile(r'^@_ZStlsISt11char_traitsIcEERSt13basic_ostreamIcT_ES5_PKc$'), x_os_cstr),
     (re.compile(r'^@_ZSt16__ostream_insertIcSt11char_traitsIcEERSt13basic_ostreamIT_T0_ES6_PKS3_l$'), x_os_insert),
     (re.compile(r'^@_ZStlsISt11char_traitsIcEERSt13basic_ostreamIcT_ES5_c$'), x_os_char),
-    (re.compile(r'^@_ZNSols[EP]?[ijlmxydfbs]$'), x_os_num),
     (re.compile(r'^@_ZNSolsE[ijlmxydfbs]$'), x_os_num),
     (re.compile(r'^@_ZNSo9_M_insertI[a-z]EERSoT_$'), x_os_num),
+    (re.compile(r'^@_ZNSt7__cxx1119basic_ostringstreamIcSt11char_traitsIcESaIcEEC[12]E(v|St13_Ios_Openmode)$'), x_oss_ctor),
+    (re.compile(r'^@_ZNSt7__cxx1118basic_stringstreamIcSt11char_traitsIcESaIcEEC[12]E(v|St13_Ios_Openmode)$'), x_ss_ctor),
     (re.compile(r'^@_ZNKSt7__cxx111[89]basic_o?stringstreamIcSt11char_traitsIcESaIcEE3strEv$'), x_oss_str),
     (re.compile(r'^@_ZNSt7__cxx111[89]basic_o?stringstreamIcSt11char_traitsIcESaIcEED[012]Ev$'), x_oss_dtor),
 ]
+
+# ---- snprintf (libdialect's string_format): concrete format string; concrete arguments are formatted like C, symbolic ones
+# become "?" (number formatting is never the subject of a claim)
+def x_snprintf(s, fr, ins, a):
+    from irsym import NULL, Ptr
+    buf, size, fmtp = a[0], a[1], a[2]
+    fmt = s.cstring(fmtp); args = list(a[3:]); out = []; i = 0
+    while i < len(fmt):
+        c = fmt[i]
+        if c != '%': out.append(c); i += 1; continue
+        j = i + 1
+        while j < len(fmt) and fmt[j] in '0123456789.-+ #lhzjt': j += 1
+        conv = fmt[j] if j < len(fmt) else '%'
+        spec = fmt[i:j + 1]
+        if conv == '%': out.append('%')
+        else:
+            v = args.pop(0) if args else 0
+            if conv in 'feEgG':
+                out.append((spec.replace('l', '') % v) if isinstance(v, float) else '?')
+            elif conv in 'di':
+                out.append((spec.replace('l', '').replace('h', '').replace('z', '') % (v - (1 << 32) if v >> 31 and 'l' not in spec else v)) if isinstance(v, int) else '?')
+            elif conv in 'uxX':
+                out.append((spec.replace('l', '').replace('h', '').replace('z', '').replace('u', 'd') % v) if isinstance(v, int) else '?')
+            elif conv == 's': out.append(s.cstring(v))
+            elif conv == 'c': out.append(chr(v & 0xff) if isinstance(v, int) else '?')
+            else: raise s.ExecError('snprintf conversion %s not modelled' % spec)
+        i = j + 1
+    text = ''.join(out)
+    if buf != NULL and isinstance(size, int) and size > 0:
+        bs = [ord(ch) & 0xff for ch in text[:size - 1]] + [0]
+        _putbytes(s, buf, bs)
+    return len(text)
+PATTERNS += [(re.compile(r'^@(snprintf|__snprintf_chk)$'), x_snprintf)]
